@@ -930,4 +930,12 @@ def f2EntryIdsWith (step : Int → Option Int → Option IdxRes) :
 def f2EntryIds (deltas : List (Option Int)) : Option (List Int × Bool) :=
   f2EntryIdsWith f2NewEntryIndex deltas 0
 
+/-! ## skrifa/src/color/instance.rs — `ColrInstance::var_deltas` -/
+
+/-- the index of the `i`-th delta of a variable paint (after fix 50dca03):
+`var_index_base.saturating_add(i as u32)`. -/
+def colrVarIndex (base i : Int) : Option Int := pure (u32.saturatingAdd base i)
+/-- the pre-fix form: `var_index_base + i as u32` (raw u32 `+`; only `base = 0xFFFFFFFF` was excluded). -/
+def colrVarIndexPreFix (base i : Int) : Option Int := u32.add base i
+
 end FontVerif.Checked
